@@ -547,7 +547,7 @@ def run(tier, seed, ev, vd):
             n = sum(o['n'] for o in outs)
             seen = {(e['scenario']['dedup'], e['scenario']['sorted'], len(set(e['names'])) < len(e['names']))
                     for o in outs for e in o['events'] if 'names' in e}
-            if n == 0 or len(seen) < 8:      # vacuity: dedup on/off x sorted or not x (some type shared | none shared)
+            if n == 0 or len(seen) < 6:      # vacuity: (dedup: shared | none shared; no dedup) x sorted or not
                 raise tlc.MachineryError('vacuous model for universe %d: %d final states, cases %s' % (ui, n, sorted(seen)))
             nsys += n
             for o in outs:
